@@ -212,6 +212,24 @@ def run(c, index, tier):
                 break
         if not dfc.equals(df):
             _viol(c, seen, "input-modified", ("frame",), "the input DataFrame was modified")
+    # ---- a writeable C-contiguous float64 copy (what X.copy() gives): same
+    #      oracles on the input and on the ranges
+    Xcc = numpy.ascontiguousarray(X.copy())
+    Xcc0 = Xcc.copy()
+    c.ch.play_tape("r", tape)
+    try:
+        ok, resc = call(Xcc)
+    finally:
+        c.ch.stop_play("r")
+    if not ok:
+        _viol(c, seen, "raised", (type(resc).__name__, U.where_raised(resc), "c-contiguous"), "non_linear_correlations raised %s on a C-contiguous copy of the table" % U.short_exc(resc))
+    else:
+        if not numpy.array_equal(Xcc0, Xcc):
+            _viol(c, seen, "input-modified", ("c-contiguous-array",), "a writeable C-contiguous float64 input array was modified")
+        for nm, m in zip(("mean", "min", "max"), resc if minmax else (resc,)):
+            m = numpy.asarray(m)
+            if m.shape != (d, d) or numpy.any(numpy.isnan(m)) or numpy.any(m < -1e-12) or numpy.any(m > 1 + 1e-9):
+                _viol(c, seen, "range", (nm, model_name, "c-contiguous"), "%s matrix of the C-contiguous copy has a wrong shape, NaN or entries outside [0, 1]" % nm)
     # ---- a failing model: the call raises, the input stays untouched
     if fault and sites:
         site = sites[ch.draw("f", len(sites), "site")]
